@@ -88,6 +88,7 @@ package registry
 //@   ensures{C11} new-package-registered: canon(pkg) != r.moqPkgPath && !old(dom(r.imports, canon(pkg))) ==> imprt != nil && fresh(imprt) && imprt.pkg == pkg && dom(r.imports, canon(pkg)) && r.imports[canon(pkg)] == imprt
 //@   ensures{C11} other-keys-kept: forall(string(k), k != canon(pkg) ==> dom(r.imports, k) == old(dom(r.imports, k)) && r.imports[k] == old(r.imports[k]))
 //@   ensures{C11} packages-kept: forall((*Package)(p), old(allocated(p)) ==> p.pkg == old(p.pkg))
+//@   ensures other-maps-kept: otherMapsKept(r.imports)
 //@   ensures{C10,C11} wf: wfK(r)
 //@   ensures result-has-pkg: imprt != nil ==> imprt.pkg != nil
 //@   ensures{C11} alias-kept-without-conflict: canon(pkg) != r.moqPkgPath && !old(dom(r.imports, canon(pkg))) && forall(string(k), old(dom(r.imports, k)) ==> old(qual(r.imports[k])) != newQual(r, pkg)) ==> imprt.Alias == r.aliases[canon(pkg)] && forall((*Package)(p), old(allocated(p)) ==> p.Alias == old(p.Alias))
@@ -131,13 +132,69 @@ package registry
 //@   ensures only-registered: forall(i, 0 <= i && i < len(out) ==> dom(r.imports, pathOf(out[i])) && r.imports[pathOf(out[i])] == out[i])
 //@   ensures all-registered: forall(string(k), dom(r.imports, k) ==> exists(i, 0 <= i && i < len(out) && out[i] == r.imports[k]))
 
+//@ define varsNonNil(m) = forall(k, 0 <= k && k < len(m.vars) ==> m.vars[k] != nil)
+//@ define entriesHavePkg(imports) = forall(string(k), dom(imports, k) && imports[k] != nil ==> imports[k].pkg != nil)
+
 //@ func registry.MethodScope.AddVar -> v
-//@   trusted contract assumed here; its verification is tracked under C12
-//@   modifies H:registry.Package#, M:string:*registry.Package#, H:registry.Var#, H:registry.MethodScope#.vars, A:*registry.Var#, M:string:bool#
-//@   requires m != nil && m.registry != nil && vr != nil && wfK(m.registry)
-//@   ensures wfK(m.registry)
-//@   ensures v != nil && fresh(v) && v.vr == vr
-//@   ensures forall((*Var)(p), old(allocated(p)) ==> p.vr == old(p.vr))
+//@   props C12
+//@   safety C19
+//@   modifies H:registry.Package#, M:string:*registry.Package#, H:registry.Var#, H:registry.MethodScope#.vars, A:*registry.Var#, M:string:bool#, A:string#
+//@   requires m != nil && m.registry != nil && vr != nil && wfK(m.registry) && m.conflicted != nil && varsNonNil(m)
+//@   ensures{C10,C11} wf: wfK(m.registry)
+//@   ensures{C02,C09} object-kept: v != nil && fresh(v) && v.vr == vr && v.moqPkgPath == m.moqPkgPath
+//@   ensures{C02,C09} other-objects-kept: forall((*Var)(p), old(allocated(p)) ==> p.vr == old(p.vr))
+//@   ensures{C02} appended-in-order: len(m.vars) == old(len(m.vars)) + 1 && m.vars[len(m.vars)-1] == v && forall(k, 0 <= k && k < old(len(m.vars)) ==> m.vars[k] == old(m.vars[k]))
+//@   ensures vars-non-nil: varsNonNil(m)
+//@   ensures{C12} new-name-unique: forall(k, 0 <= k && k < len(m.vars) - 1 ==> m.vars[k].Name != v.Name)
+//@   ensures{C13} name-kept-unless-conflict: forallEv(i, evIs(i, "call:registry.varName") ==> evArg(i, 0) == vr && evArg(i, 1) == suffix && (v.Name == evRes(i)
+//@       || existsEv(q, evIs(q, "call:registry.Registry.searchImport") && evArg(q, 1) == evRes(i) && evRes(q, 1))
+//@       || existsEv(j, evIs(j, "call:registry.MethodScope.resolveVarNameConflict"))))
+//@   ensures{C12} import-clash-renamed: forallEv(i, q, evIs(i, "call:registry.varName") && evIs(q, "call:registry.Registry.searchImport") && evRes(q, 1) && !existsEv(j, evIs(j, "call:registry.MethodScope.resolveVarNameConflict")) ==> v.Name == evRes(i) + "MoqParam")
+
+//@ func registry.MethodScope.resolveVarNameConflict -> r
+//@   props C12
+//@   safety C19
+//@   modifies H:registry.Var#.Name, M:string:bool#
+//@   requires m != nil && m.conflicted != nil && varsNonNil(m)
+//@   loop 1 invariant counter: n >= 1
+//@   loop 1 invariant renamed-only: forall((*Var)(p), old(allocated(p)) ==> p.Name == old(p.Name) || (old(p.Name) == suggested && p.Name == suggested + "1"))
+//@   loop 1 invariant distinct-kept: (forall(i, j, 0 <= i && i < j && j < len(m.vars) ==> old(m.vars[i].Name) != old(m.vars[j].Name))) ==> forall(i, j, 0 <= i && i < j && j < len(m.vars) ==> m.vars[i].Name != m.vars[j].Name)
+//@   ensures not-taken: forall(k, 0 <= k && k < len(m.vars) ==> m.vars[k].Name != r)
+//@   ensures numbered: hasPrefix(r, suggested) && r != suggested
+//@   ensures renamed-only: forall((*Var)(p), old(allocated(p)) ==> p.Name == old(p.Name) || (old(p.Name) == suggested && p.Name == suggested + "1"))
+//@   ensures distinct-kept: (forall(i, j, 0 <= i && i < j && j < len(m.vars) ==> old(m.vars[i].Name) != old(m.vars[j].Name))) ==> forall(i, j, 0 <= i && i < j && j < len(m.vars) ==> m.vars[i].Name != m.vars[j].Name)
+
+//@ func registry.MethodScope.resolveImportVarConflicts
+//@   props C12
+//@   safety C19
+//@   modifies H:registry.Var#.Name
+//@   requires varsNonNil(m) && entriesHavePkg(imports)
+//@   loop 1 invariant suffixed-only: forall((*Var)(p), old(allocated(p)) ==> hasPrefix(p.Name, old(p.Name)))
+//@   ensures suffixed-only: forall((*Var)(p), old(allocated(p)) ==> hasPrefix(p.Name, old(p.Name)))
+
+//@ func registry.MethodScope.populateImports
+//@   props C11
+//@   safety C19
+//@   modifies H:registry.Package#, M:string:*registry.Package#, A:string#
+//@   requires m.registry != nil && wfK(m.registry) && imports != nil && imports != m.registry.imports && entriesHavePkg(imports)
+//@   decreases uf("types.size", Int, t)
+//@   loop 1 invariant wf: wfK(m.registry) && entriesHavePkg(imports) && i >= 0
+//@   loop 1 invariant packages-kept: forall((*Package)(p), old(allocated(p)) ==> p.pkg == old(p.pkg))
+//@   loop 2 invariant wf: wfK(m.registry) && entriesHavePkg(imports) && i >= 0
+//@   loop 2 invariant packages-kept: forall((*Package)(p), old(allocated(p)) ==> p.pkg == old(p.pkg))
+//@   loop 3 invariant wf: wfK(m.registry) && entriesHavePkg(imports) && i >= 0
+//@   loop 3 invariant packages-kept: forall((*Package)(p), old(allocated(p)) ==> p.pkg == old(p.pkg))
+//@   loop 4 invariant wf: wfK(m.registry) && entriesHavePkg(imports) && i >= 0
+//@   loop 4 invariant packages-kept: forall((*Package)(p), old(allocated(p)) ==> p.pkg == old(p.pkg))
+//@   loop 5 invariant wf: wfK(m.registry) && entriesHavePkg(imports) && i >= 0
+//@   loop 5 invariant packages-kept: forall((*Package)(p), old(allocated(p)) ==> p.pkg == old(p.pkg))
+//@   loop 6 invariant wf: wfK(m.registry) && entriesHavePkg(imports) && i >= 0
+//@   loop 6 invariant packages-kept: forall((*Package)(p), old(allocated(p)) ==> p.pkg == old(p.pkg))
+//@   loop 7 invariant wf: wfK(m.registry) && entriesHavePkg(imports) && i >= 0
+//@   loop 7 invariant packages-kept: forall((*Package)(p), old(allocated(p)) ==> p.pkg == old(p.pkg))
+//@   ensures wf: wfK(m.registry)
+//@   ensures entries: entriesHavePkg(imports)
+//@   ensures packages-kept: forall((*Package)(p), old(allocated(p)) ==> p.pkg == old(p.pkg))
 
 //@ -- registry invariant (K): every key of the import map is the canonical path of a non-nil
 //@ -- entry with a package object, and is never the destination package itself
